@@ -501,6 +501,9 @@ func genInsert(r *hutil.Rng, t *table, o stmtOpt) (string, StmtMeta) {
 			if t.isPK(c) {
 				if col.Kind == "int" {
 					v = atrun.I(g0.freshInt())
+					if !t.auto && o.insMode == "" && r.Chance(1, 5) {
+						v = atrun.I(0) // without AUTO_INCREMENT 0 is an ordinary key value (also as a component of a composite key)
+					}
 				} else {
 					v = atrun.S("n" + strconv.FormatInt(g0.freshInt(), 10))
 				}
